@@ -147,7 +147,7 @@ func (o *obs) signCase(class string, a, b, c s2.Point) {
 		under := stableUnderflow(a, b, c)
 		stableWrong := stb != 0 && stb != det
 		if stableWrong && under {
-			cl.Violate("stableSign.underflow", "stableSign returns a wrong non-zero sign when |e1|^2*|e2|^2 underflows (maxErr = 0 accepts rounding noise); RobustSign inherits it", r)
+			cl.Violate("stableSign.underflow", "stableSign returns a wrong non-zero sign when |e1|^2*|e2|^2 underflows (regression of fix bfbf523: maxErr below the no-underflow limit must give Indeterminate)", r)
 		} else if stableWrong {
 			cl.Violate("stableSign.wrong", "stableSign returned a non-zero sign that is not the sign of the exact determinant (H-STABLE-DET)", r)
 		}
